@@ -24,9 +24,9 @@ Proof. exact out_item_v2_id. Qed.
 
 (* GetItem returns the stored item through that mapper *)
 Theorem C10_get_returns_stored :
-  forall lm lu s c tn key t k,
-    preamble s c tn [] [] [[]] = inr t -> get_key (t_ks t) (t_defs t) key = inr k ->
-    snd (step lm lu s c (OGet tn key)) = ok_obs (PItem (out_item s (get_item t k))) [].
+  forall lm lu s c tn key names proj t k,
+    preamble s c tn names [] [proj] = inr t -> get_key (t_ks t) (t_defs t) key = inr k ->
+    snd (step lm lu s c (OGet tn key names proj)) = ok_obs (PItem (out_item s (get_item t k))) [].
 Proof. exact get_returns_stored. Qed.
 
 (* known finding C10-1: through SDK v2 empty containers come back as NULL *)
